@@ -12,7 +12,7 @@ From Verif Require Import EanM EanSpec CodabarM CodabarSpec TwoOfFiveM TwoOfFive
 From Verif Require Import Code128M Code128Spec Code39M Code39Spec Code93M Code93Spec.
 From Verif Require Import DataMatrixM DataMatrixSpec DataMatrixP1 QRM QRSpec QRP6Compose QRProps.
 From Verif Require Import AztecM AztecSpec AztecPConfig AztecProps TabPdf417 Pdf417M Pdf417Spec Pdf417Props.
-From Verif Require Import C10P C10AzP C10PdfP.
+From Verif Require Import ReprSpec C10P C10AzP C10PdfP.
 
 Theorem C10_contract_means_total : forall A (r : outcome A) b, exact_acceptance r b ->
   r <> Panic /\ r <> OutOfFuel /\ ((exists x, r = Ok x) \/ r = Err).
